@@ -363,11 +363,30 @@ def judge_c09(obs: L.Obs) -> list[tuple[str, str]]:
         # (3a) every waiter failing after the first fatal carries it
         if not isinstance(F1, APIConnectionError):
             continue
+        _judge_waiters(obs, v, fseq, ft, F1, out)
+    # (3a') a first cause recorded WITHOUT a fatal report (disconnect() gives up waiting for a stalled connect: it records its timeout and then
+    #       closes the connection) is a first cause all the same: the connect waiter it interrupts carries it
+    for v in obs.conns:
+        sets = getattr(v, "fatal_sets", [])
+        if not sets or not isinstance(sets[0][3], APIConnectionError):
+            continue
+        if v.fatals and v.fatals[0][0] < sets[0][0]:
+            continue    # (a reported fatal error came first: judged above)
+        _stat("c09/first-cause-recorded-without-report")
+        _judge_waiters(obs, v, sets[0][0], sets[0][1], sets[0][3], out, only_at_close=True)
+    return out
+
+
+def _judge_waiters(obs: L.Obs, v: Any, fseq: int, ft: float, F1: BaseException, out: list[tuple[str, str]], only_at_close: bool = False) -> None:
+    if True:
         for c in obs.calls:
             if c.outcome != "raised" or c.seq_ret is None or c.seq_ret < fseq or c.seq_call > fseq:
                 continue
             if c.name in ("disconnect", "force_disconnect"):
                 continue
+            if only_at_close and (v.closed_t is None or abs((c.t_ret or 0) - v.closed_t) > 1e-9 or abs(v.closed_t - ft) > 1e-9):
+                continue    # (judged when recording the cause and closing the connection are one step; a recorded cause that did not end the
+                #             connection - the disconnect() went on waiting, or was abandoned - does not explain a later, separate failure)
             e = c.exc
             chain = []
             x: BaseException | None = e
@@ -381,8 +400,9 @@ def judge_c09(obs: L.Obs) -> list[tuple[str, str]]:
                 continue  # the connection was already closed (gracefully) before the first fatal report
             if type(e).__name__ == "TimeoutAPIError" and abs((c.t_ret or 0) - ft) < 1e-9:
                 continue  # its own timeout fired in the very same instant as the fatal error
-            out.append((f"C09/first-cause-masked/{c.name}", f"{c.name} failed with {e!r} although the first fatal cause was {F1!r} (cause {cause_tag(obs)})"))
-    return out
+            key = (f"C09/first-cause-masked/{c.name}", f"{c.name} failed with {e!r} although the first fatal cause was {F1!r} (cause {cause_tag(obs)})")
+            if key not in out:
+                out.append(key)
 
 
 def judge_c11(obs: L.Obs) -> list[tuple[str, str]]:
@@ -589,7 +609,7 @@ def stalled_connect_sweep(ctx: Ctx, prop: str) -> None:
     t0 = L.core_start()
     idx = 0
     for framing in ("plain", "noise"):
-        for hello_at in (8.0, None):
+        for hello_at in (8.0, None) + (("noise-handshake-stalled",) if framing == "noise" else ()):
             for disc_answer in ("slow_disconnect", "no_disconnect_answer"):
                 for cancel_disc in (False, True):
                     for final in ("eof", "rst", "etimedout", "garbage", "bad_pb", "sendfail+cmd", "none"):
@@ -597,10 +617,12 @@ def stalled_connect_sweep(ctx: Ctx, prop: str) -> None:
                             idx += 1
                             if not ctx.mine(idx):
                                 continue
-                            handlers = disc_answer + (f"+slow_hello:{hello_at}" if hello_at else "")
+                            handlers = disc_answer + (f"+slow_hello:{hello_at}" if isinstance(hello_at, float) else "")
                             dev: dict[str, Any] = {"handlers": handlers}
                             if hello_at is None:
                                 dev["answer_hello"] = False
+                            if hello_at == "noise-handshake-stalled":
+                                dev["noise_silent"] = True    # the device never answers the Noise handshake: the connect is stuck before any API message
                             faults: list[dict[str, Any]] = [{"kind": "disconnect", "point": {"t": t0 + 1.0}, "posclass": "stalled"}]
                             if cancel_disc:
                                 faults.append({"kind": "cancel", "point": {"t": t0 + 6.2}, "posclass": "stalled"})
